@@ -1124,3 +1124,146 @@ def _():
     k = ufl.Constant(m)
     v = TestFunction(V)
     return (f / g / k + f / (g / k) + (f - g) / (f + g) - f / g * k + -f * -g - (f - (g - k))) * v * dx(degree=1)
+
+
+# ---- generated grid: cell x integral type x element x template (thorough tier; a few in quick) ----
+
+_ELEMS = {
+    "P1": lambda m: space(m),
+    "P2": lambda m: space(m, deg=2),
+    "DG0": lambda m: space(m, "DG", 0),
+    "DG1": lambda m: space(m, "DG", 1),
+    "vP1": lambda m: space(m, shape=(GD[m.ufl_cell().cellname],)),
+    "Q2": lambda m: space(m, "Q", 2),
+}
+
+
+def _grid_form(cell, itype, ename, tmpl):
+    m = mesh(cell)
+    V = _ELEMS[ename](m)
+    vec = ename == "vP1"
+    u, v = TrialFunction(V), TestFunction(V)
+    f = ufl.Coefficient(V)
+    k = ufl.Constant(m)
+    meas = {"cell": dx, "exterior_facet": ds, "interior_facet": dS, "vertex": ufl.dP}[itype]
+    r = (lambda a: a("+")) if itype == "interior_facet" else (lambda a: a)
+    rm = (lambda a: a("-")) if itype == "interior_facet" else (lambda a: a)
+    if tmpl == "mass":
+        return inner(r(u), rm(v)) * meas
+    if tmpl == "stiff":
+        return inner(grad(r(u)), grad(rm(v))) * meas
+    if tmpl == "coefmass":
+        w = inner(rm(f), rm(f)) if vec else rm(f)
+        return k * w * inner(r(u), r(v)) * meas
+    if tmpl == "linear":
+        return inner(rm(f), r(v)) * meas
+    if tmpl == "functional":
+        return k * inner(r(f), rm(f)) * meas
+    if tmpl == "gradcoef":
+        return inner(grad(rm(f)), grad(r(v))) * meas
+    raise ValueError(tmpl)
+
+
+_GRID = []
+for _cell in ["interval", "triangle", "quadrilateral", "tetrahedron", "hexahedron", "prism"]:
+    for _it in ["cell", "exterior_facet", "interior_facet", "vertex"]:
+        for _en in ["P1", "P2", "DG0", "DG1", "vP1"]:
+            for _tm in ["mass", "stiff", "coefmass", "linear", "functional", "gradcoef"]:
+                if _cell in ("quadrilateral", "hexahedron") and _en in ("P2",):
+                    continue
+                if _cell == "prism" and (_it == "interior_facet" or _en in ("P2", "DG1", "vP1") or _tm in ("stiff", "gradcoef")):
+                    continue
+                if _cell == "hexahedron" and (_en in ("vP1", "DG1") or _tm in ("stiff", "gradcoef", "coefmass") or _it == "interior_facet"):
+                    continue
+                if _cell == "tetrahedron" and _en == "P2" and (_tm in ("stiff", "coefmass", "gradcoef") or _it != "cell"):
+                    continue
+                if _cell == "tetrahedron" and _en == "vP1" and _tm in ("stiff", "coefmass", "gradcoef"):
+                    continue
+                if _it == "vertex" and (_en in ("DG0", "DG1") or _tm in ("stiff", "gradcoef")):
+                    continue
+                if _en == "DG0" and _tm in ("stiff", "gradcoef"):
+                    continue
+                if _cell == "interval" and _en == "vP1":
+                    continue
+                _GRID.append((_cell, _it, _en, _tm))
+
+for _i, (_cell, _it, _en, _tm) in enumerate(_GRID):
+    def _mk(cell=_cell, it=_it, en=_en, tm=_tm):
+        return _grid_form(cell, it, en, tm)
+
+    _tag = {"cell": "c01", "exterior_facet": "c02", "interior_facet": "c02", "vertex": "c02"}[_it]
+    _extra = " c03" if (_it == "interior_facet" and _en in ("P1", "DG1", "DG0", "vP1") and _tm in ("mass", "linear") and _cell in ("triangle", "quadrilateral")) else ""
+    _q = " q" if _i % 17 == 0 else ""
+    reg(f"grid_{_cell}_{_it}_{_en}_{_tm}", f"{_tag} c08 c19 grid{_extra}{_q}", itypes=(_it,))(_mk)
+
+
+# ---- second derivatives, components of mixed coefficients, curved facets -------------
+
+
+@reg("hessian_P2_triangle", "c01 c08 c18 q")
+def _():
+    m = mesh("triangle")
+    V = space(m, deg=2)
+    f = ufl.Coefficient(V)
+    v = TestFunction(V)
+    return inner(grad(grad(f)), grad(grad(v))) * dx + div(grad(f)) * v * dx
+
+
+@reg("mixed_components_triangle", "c01 c05 c08 q")
+def _():
+    m = mesh("triangle")
+    el = basix.ufl.mixed_element([basix.ufl.element("Lagrange", "triangle", 2, shape=(2,)), basix.ufl.element("Lagrange", "triangle", 1), basix.ufl.element("DG", "triangle", 0)])
+    W = ufl.FunctionSpace(m, el)
+    w = ufl.Coefficient(W)
+    uu, p, r0 = ufl.split(w)
+    v = TestFunction(space(m))
+    return (div(uu) * p + r0 * uu[1] + inner(grad(p), uu)) * v * dx
+
+
+@reg("curl3d_N1curl_tetrahedron", "c01 c08")
+def _():
+    m = mesh("tetrahedron")
+    V = space(m, "N1curl", 1)
+    f = ufl.Coefficient(V)
+    v = TestFunction(V)
+    return inner(curl(f), curl(v)) * dx
+
+
+@reg("ds_normal_curved_triangle", "c02 c08 q", itypes=("exterior_facet",))
+def _():
+    m = mesh("triangle", gdeg=2)
+    V = space(m)
+    v = TestFunction(V)
+    n = FacetNormal(m)
+    b = ufl.Constant(m, shape=(2,))
+    return dot(b, n) * v * ds(degree=2)
+
+
+@reg("dS_normal_jump_curved_triangle", "c02 c08", itypes=("interior_facet",))
+def _():
+    m = mesh("triangle", gdeg=2)
+    V = space(m, "DG", 1)
+    u, v = TrialFunction(V), TestFunction(V)
+    n = FacetNormal(m)
+    return inner(jump(u, n), jump(v, n)) * dS(degree=2)
+
+
+@reg("manifold_normal_triangle3d", "c01 c08")
+def _():
+    m = mesh("triangle", gdim=3)
+    V = space(m)
+    v = TestFunction(V)
+    n = ufl.CellNormal(m)
+    b = ufl.Constant(m, shape=(3,))
+    return dot(b, n) * v * dx
+
+
+@reg("constants_only_facets", "c02 c05 c08 q", itypes=("exterior_facet", "interior_facet"))
+def _():
+    m = mesh("triangle")
+    V = space(m, "DG", 1)
+    v = TestFunction(V)
+    K = ufl.Constant(m, shape=(2, 2))
+    b = ufl.Constant(m, shape=(2,))
+    n = FacetNormal(m)
+    return dot(K * b, n) * v * ds + dot(b, n("+")) * K[1, 0] * v("-") * dS
